@@ -793,7 +793,7 @@ func writeEvidence(id, tier string, seed int, pc *PropCfg, ld *Loaded, ex *Exec,
 		"relies_on_contracts":       reliesOnContracts,
 		"retried_after_timeout":     Retried,
 		"bounded":                   boundedResults,
-		"dropped_by_translation":    []string{"goroutines (go statements are events; no interleaving)", "channel contents (receives yield arbitrary values)", "termination (partial correctness only)", "map iteration order, time, randomness (nondeterministic values)", "append aliasing (append always allocates a fresh backing array)"},
+		"dropped_by_translation":    []string{"goroutines (go statements are events; no interleaving)", "channel contents (receives yield arbitrary values)", "termination (partial correctness only)", "map iteration order, time, randomness (nondeterministic values)", "append aliasing for element types other than bytes (append to a non-byte slice always allocates a fresh backing array; byte slices with spare capacity are written in place)"},
 		"contract_files":            relFiles(ld.Specs.Files),
 		"explanation":               pc.Text,
 	}
